@@ -55,7 +55,11 @@ def pool(tier):
           mkcfg("Multistage", max_n=20, ram=0, disk=5),
           mkcfg("Multistage", max_n=10, ram=2, disk=3, traj=1), mkcfg("Multistage", max_n=12, ram=3, disk=3, traj=1),
           mkcfg("Multistage", max_n=10, ram=1, disk=4, traj=1), mkcfg("HRevolve", max_n=16, ram=2, disk=2),
-          mkcfg("PeriodicDiskRevolve", max_n=20, ram=2)]
+          mkcfg("PeriodicDiskRevolve", max_n=20, ram=2),
+          # large n: only a prefix of the stream is compared, but the planner tables are built in full
+          mkcfg("Mixed", max_n=260, ram=3, st=1), mkcfg("Multistage", max_n=300, ram=0, disk=4),
+          mkcfg("Multistage", max_n=12, ram=1, disk=2), mkcfg("Multistage", max_n=14, ram=2, disk=2),
+          mkcfg("Revolve", max_n=120, ram=3), mkcfg("HRevolve", max_n=90, ram=2, disk=2)]
     if tier != "quick":
         p += [mkcfg("Multistage", max_n=20, ram=2, disk=2), mkcfg("Mixed", max_n=20, ram=3, st=0),
               mkcfg("Mixed", max_n=15, ram=4, st=1), mkcfg("HRevolve", max_n=12, ram=2, disk=2),
@@ -114,6 +118,8 @@ def call_helper(f, n, s):
         else:
             mx.mixed_steps_tabulation(n, s)
             ms.n_advance(n, s)
+            ms.allocate_snapshots(n + 1, 1, max(s, 1), write_weight=0.0, read_weight=1.0)
+            ms.allocate_snapshots(n + 2, 2, max(s, 1), trajectory="revolve", delete_weight=1.0)
     except Exception:
         pass
 
